@@ -6,7 +6,8 @@ import XalanModel.C01.Pending
 selected templates and branches are fixed parameters of the tree.  Here they are **computed from the current
 source node** by an oracle (the XPath / pattern-matching layer: C02, C09, C10), the engine keeps the real
 `m_currentNodeStack` and `m_nodesToTransformStack` (lists of remaining nodes), and the instructions produce
-result events through the engine's output calls.  Fragment: `xsl:value-of` (`text`), literal result elements
+result events through the engine's output calls.  Fragment: `xsl:value-of` (`text`), `xsl:attribute` and literal attributes (`attr`, a guarded add), `xsl:copy-of` / comment /
+processing-instruction (`emit`: whatever guarded calls the oracle lists), literal result elements
 (`lre`), silent blocks (`xsl:when`, `xsl:otherwise`, `xsl:template`, `xsl:if` taken), `xsl:call-template`
 (without parameters), `xsl:choose`, `xsl:for-each`, `xsl:apply-templates` (without parameters / sort keys: their
 effect is inside the oracle's `sel`).  Not in the fragment: variables and parameters (`Variables.lean`),
@@ -26,6 +27,8 @@ abbrev SrcNode := Nat × Nat × Nat
 
 inductive Kind
   | text                      -- xsl:value-of
+  | attr (name : String)      -- xsl:attribute / an attribute of a literal result element (guarded add, value from the oracle)
+  | emit                      -- xsl:copy-of, xsl:comment, xsl:processing-instruction: engine calls given by the oracle
   | lre (name : String)       -- literal result element
   | block                     -- xsl:template, xsl:when, xsl:otherwise, xsl:if (taken)
   | call (target : Nat)
@@ -58,12 +61,15 @@ structure Oracle where
   sel : Addr → SrcNode → List SrcNode     -- select of the for-each / apply-templates at `a`, current node given
   tmpl : Addr → SrcNode → Nat             -- template rule chosen for a node selected by the apply-templates at `a`
   branch : Addr → SrcNode → Nat           -- index of the branch an xsl:choose takes (out of range = none)
-  str : Addr → SrcNode → String           -- string value of the value-of at `a`
+  str : Addr → SrcNode → String           -- string value of the value-of / attribute at `a`
+  evs : Addr → SrcNode → List REv := fun _ _ => []   -- the calls an `emit` instruction makes (copy of nodes, comment, PI)
 
 /-- engine calls made when an element starts / ends -/
 def startOut (O : Oracle) (k : Kind) (a : Addr) (n : SrcNode) : List REv :=
   match k with
   | .text => if (O.str a n).isEmpty then [] else [.text (O.str a n)]
+  | .attr name => [.attr name (O.str a n)]
+  | .emit => O.evs a n
   | .lre name => [.start name]
   | _ => []
 
@@ -84,6 +90,8 @@ def inst (P : Prog) (O : Oracle) : Nat → Addr → SrcNode → Option (List REv
     | some nd =>
       match nd.kind with
       | .text => some (startOut O .text a n)
+      | .attr name => some (startOut O (.attr name) a n)
+      | .emit => some (startOut O .emit a n)
       | .lre name => (instKids P O f a 0 nd.kids.length n).map fun ks => REv.start name :: ks
       | .block => instKids P O f a 0 nd.kids.length n
       | .call t =>
@@ -182,6 +190,8 @@ def startNext (O : Oracle) (nd : Node) (a : Addr) (its : List (List SrcNode)) (n
     Phase × List (List SrcNode) × List SrcNode :=
   match nd.kind with
   | .text => (.ending a, its, nodes)
+  | .attr _ => (.ending a, its, nodes)
+  | .emit => (.ending a, its, nodes)
   | .lre _ => (if nd.kids.isEmpty then .ending a else .starting (child a 0), its, nodes)
   | .block => (if nd.kids.isEmpty then .ending a else .starting (child a 0), its, nodes)
   | .call t => (.starting (t, []), its, nodes)
@@ -222,6 +232,8 @@ def getNextChild (P : Prog) (O : Oracle) (inv c : Addr) (its : List (List SrcNod
   | some nd =>
     match nd.kind with
     | .text => (.ending inv, its, nodes)
+    | .attr _ => (.ending inv, its, nodes)
+    | .emit => (.ending inv, its, nodes)
     | .lre _ => ((match nextSibling P c with | some s => .starting s | none => .ending inv), its, nodes)
     | .block => ((match nextSibling P c with | some s => .starting s | none => .ending inv), its, nodes)
     | .call _ => (.ending inv, its, nodes)
